@@ -95,3 +95,22 @@ func H_C07_importblock() {
 	f.renderImports(ib)
 	verifDeterministic("imports", ib.String())
 }
+
+// two (or three) distinct keys that render to the same text: the order of their pairs must not
+// follow the map iteration order
+func H_C07_dict_samekeys() {
+	n := 2 + nondetChoice("n", 1+verifTier())
+	d := Dict{}
+	for i := 0; i < n; i++ {
+		k := &symCode{id: dictKeyIDs[i]}
+		verifAssume(!nondetBool("null_" + dictKeyIDs[i]))
+		verifAssume(nondetString("out_"+dictKeyIDs[i]) == nondetString("out_k0"))
+		v := &symCode{id: dictValIDs[i]}
+		verifAssume(!nondetBool("null_" + dictValIDs[i]))
+		d[k] = v
+	}
+	buf := &bytes.Buffer{}
+	err := Values(d).render(NewFile("p"), buf, nil)
+	verifAssert(err == nil, "no error")
+	verifDeterministic("dict", buf.String())
+}
